@@ -222,7 +222,8 @@ def check_histogram_total(ctx: Ctx):
                     if isinstance(b_, ast.BinOp) and isinstance(b_.op, ast.Sub) and isinstance(b_.right, ast.Call) and (U(b_.right.func).split(".")[-1] in ("min", "max", "mean", "nanmin", "nanmax", "median")):
                         centred = True
             fixed_edges = bins is not None and isinstance(fv.expand(bins, c), (ast.List, ast.Tuple))
-            ctx.decide(handled or centred or fixed_edges or rng is not None, "TOTAL", f"{fi.qualname}:histogram", (fi, c),
+            const_range = rng is not None and isinstance(rng, (ast.Tuple, ast.List)) and all(isinstance(e_, ast.Constant) or (isinstance(e_, ast.UnaryOp) and isinstance(e_.operand, ast.Constant)) for e_ in rng.elts)
+            ctx.decide(handled or centred or fixed_edges or const_range, "TOTAL", f"{fi.qualname}:histogram", (fi, c),
                        "a data range too narrow for the requested bins is handled (ValueError caught / data centred / explicit edges)",
                        f"`{U(c)[:70]}` raises ValueError('Too many bins for data range') for a finite image whose range is below the float resolution of its offset "
                        "(e.g. 1000 + 1e-13·noise with threshold='otsu'): locate_droplets aborts on a valid field")
@@ -273,6 +274,32 @@ def check_axis_constraint(ctx: Ctx):
     return n
 
 
+def check_kw_merge(ctx: Ctx):
+    """`dict(k=v, **user)` raises TypeError('got multiple values for keyword argument') as soon as the user's dictionary names k
+    as well; defaults are merged with `user.setdefault(k, v)` or `{k: v, **user}`.  (refine_droplet merges its `tolerance` into
+    the caller's least_squares_params, which documents ftol / xtol / gtol as valid entries.)"""
+    m = ctx.model
+    n = 0
+    for fi in m.all_functions():
+        if fi.module.name != IMG:
+            continue
+        params = set(fi.all_params)
+        bad = None
+        for c in ast.walk(fi.node):
+            if isinstance(c, ast.Call) and U(c.func) == "dict" and any(k.arg is None for k in c.keywords) and any(k.arg is not None for k in c.keywords):
+                stars = [k.value for k in c.keywords if k.arg is None]
+                if any(isinstance(x, ast.Name) and x.id in params for s_ in stars for x in ast.walk(s_)):
+                    bad = c
+        if fi.name == "refine_droplet":
+            n += 1
+            ctx.decide(bad is None, "TOTAL", f"{fi.qualname}:kw-merge", (fi, bad) if bad is not None else fi, "defaults are merged into the caller's option dictionary without raising for keys it already has",
+                       f"`{U(bad)[:70] if bad is not None else ''}` raises TypeError (multiple values for a keyword) when the caller's dictionary names one of the explicitly given keys, "
+                       "e.g. refine_args={'tolerance': 1e-3, 'least_squares_params': {'xtol': 1e-6}}: a documented option combination aborts")
+        elif bad is not None:
+            ctx.violate("TOTAL", f"{fi.qualname}:kw-merge", (fi, bad), f"`{U(bad)[:70]}` raises TypeError when the caller's dictionary names one of the explicitly given keys")
+    return n
+
+
 def check_threshold_usage(ctx: Ctx):
     """The threshold option is `float | "auto" | "extrema" | "mean" | "otsu"`: outside locate_droplets' own dispatch (which
     converts it) it may only be stored and forwarded.  Comparing it with field values or doing arithmetic on it raises
@@ -318,6 +345,10 @@ def check(ctx: Ctx):
     n3 = empty.check_cdist(ctx)
     empty.check_optional_dim(ctx)
     empty.check_slice_stop_index(ctx)
+    from ..rules import purity as _pur
+
+    _pur.check_mutable_defaults(ctx, ("droplets.image_analysis", "droplets.emulsions", "droplets.droplets", "droplets.droplet_tracks", "droplets.trackers"))
+    ctx.expect("MUTDEFAULT", 5)
     ctx.expect("BOUNDS", 4)
     # the size filter runs on every located emulsion: its removal loop must not invalidate the indices it still has to visit
     from ..rules import collections as col_
@@ -360,6 +391,7 @@ def check(ctx: Ctx):
                "phase_field.grid.dim; on symmetric grids (fewer axes than dimensions) another quantity raises the documented error for valid requests or builds droplets of the wrong dimension")
     check_otsu_total(ctx)
     check_histogram_total(ctx)
+    check_kw_merge(ctx)
     check_axis_constraint(ctx)
     check_threshold_usage(ctx)
     from . import c07
@@ -380,7 +412,7 @@ def check(ctx: Ctx):
     ctx.expect("INDEX", 4)
     ctx.expect("METRIC", 2)
     ctx.expect("WIDTH", 4)
-    ctx.expect("TOTAL", 4)
+    ctx.expect("TOTAL", 5)
     ctx.expect("EMPTY", 9)
     ctx.expect("ARITY", 3)
     ctx.expect("DIV0", 1)
